@@ -488,7 +488,7 @@ def step2 (s : St) (name : String) (flags : List String) (vs : List (List Float)
                 if name == "havesame2" && a.length != bb.length then got == orig else decide (IsSortOf rlt orig got)
               [((if name == "havesame2" then "haveSameInPlace_spec" else "containsAllInPlace_spec"),
                   b == showBool (if name == "havesame2" then decide (a.Perm bb) else bb.all (fun x => a.any (· == x)))),
-               ("inPlace_sorted", sortedOrSame a ra && sortedOrSame bb rb)]
+               ("mergeSort_sorted_perm", sortedOrSame a ra && sortedOrSame bb rb)]
             | _, _ => [("inPlace_spec", false)]
           | _, _ => [("inPlace_spec", false)]
         | [_, _, _], _, _ => []
@@ -502,7 +502,7 @@ def step2 (s : St) (name : String) (flags : List String) (vs : List (List Float)
           match rats? ga, rats? gb, rats? gc with
           | some ra, some rb, some rc =>
             [("diff3_spec", rc.take c.length == c && decide (IsDiff req rlt a b (rc.drop c.length))),
-             ("inPlace_sorted", decide (IsSortOf rlt a ra) && decide (IsSortOf rlt b rb))]
+             ("mergeSort_sorted_perm", decide (IsSortOf rlt a ra) && decide (IsSortOf rlt b rb))]
           | _, _, _ => [("diff3_spec", false)]
         | some [_, _, _], _, _, _ => []
         | _, _, _, _ => [("diff3_spec", false)])
@@ -851,7 +851,7 @@ def step (s : St) (op : List String) (impl : Option (List String)) : St × Strin
     let w := if isCov then v2 else v1
     (s, showRes showF (if isCov then VecTools.covW v0 v1 w unbiased normalize else VecTools.varW v0 w unbiased normalize),
       if v0.length != w.length || b.length != w.length then expectErr impl "mismatch_raises" .dimension
-      else onScalar impl "covw_spec" fun g =>
+      else onScalar impl "covW_spec" fun g =>
         match rats? v0, rats? b, rats? w with
         | some x, some y, some wr =>
           if !(wr.all (· > 0)) || !normalize then [] else
@@ -860,8 +860,8 @@ def step (s : St) (op : List String) (impl : Option (List String)) : St × Strin
           let c := Spec.dotW (x.map (· - mx)) (y.map (· - my)) wn
           let sc := Spec.dotW (x.map (fun a => rabs a + rabs mx)) (y.map (fun a => rabs a + rabs my)) wn
           let d := 1 - Spec.dot wn wn
-          if unbiased then (if d * 1024 < 1 then [] else [("covw_spec", closeTo g (c / d) (sc / d))])
-          else [("covw_spec", closeTo g c sc)]
+          if unbiased then (if d * 1024 < 1 then [] else [("covW_spec", closeTo g (c / d) (sc / d))])
+          else [("covW_spec", closeTo g c sc)]
         | _, _, _ => [])
   | "corw" =>
     let normalize := fl 0
@@ -906,7 +906,7 @@ def step (s : St) (op : List String) (impl : Option (List String)) : St × Strin
             let c := Float.ofNat (v1.filter (· == x)).length
             (c / n) * Float.log (c / n) / Float.log base))
           [("shannonDiscrete_spec", fclose g h 1e-9),
-           ("entropy_range", g ≥ -1e-12 && g ≤ Float.log n / Float.log base + 1e-9)]
+           ("explored_entropy_range", g ≥ -1e-12 && g ≤ Float.log n / Float.log base + 1e-9)]
         else [])
     | _ => bad
   | "midisc" =>
@@ -922,7 +922,7 @@ def step (s : St) (op : List String) (impl : Option (List String)) : St × Strin
             let c := Float.ofNat (pairs.filter (fun q => q.1 == p.1 && q.2 == p.2)).length
             (c / n) * Float.log (c * n / (cnt v1 p.1 * cnt v2 p.2)) / Float.log base))
           [("miDiscrete_spec", fclose g mi 1e-9),
-           ("mi_nonneg", g ≥ -1e-9)]
+           ("explored_mi_nonneg", g ≥ -1e-9)]
         else [])
     | _ => bad
   | "seq" =>
@@ -1005,10 +1005,10 @@ def step (s : St) (op : List String) (impl : Option (List String)) : St × Strin
     (s, showRes showF (LogSpace.logSumExp v0), emptyOr v0 fun _ => onScalar impl "lse_bounds" fun g =>
       if !(noNaN v0) then [] else
       let M := fmax v0
-      if M.isInf then [("lse_inf", g == M), ("lse_ext_agrees", extResAgrees "" (some g) (LogSpace.logSumExp (v0.map Ext.ofFloat)))] else
+      if M.isInf then [("log_inf_max", g == M), ("lse_ext_agrees", extResAgrees "" (some g) (LogSpace.logSumExp (v0.map Ext.ofFloat)))] else
       let n := Float.ofNat v0.length
       let slack := 1e-12 * (1.0 + M.abs)
-      [("lse_finite", finite g),
+      [("explored_lse_finite", finite g),
        ("lse_bounds", M - slack ≤ g && g ≤ M + Float.log n + slack),
        ("lse_spec", !(v0.all (fun x => x.abs ≤ 700.0)) || fclose g (Float.log (fsum (v0.map Float.exp)))),
        ("lse_ext_agrees", extResAgrees "" (some g) (LogSpace.logSumExp (v0.map Ext.ofFloat)))])
@@ -1016,11 +1016,11 @@ def step (s : St) (op : List String) (impl : Option (List String)) : St × Strin
     (s, showRes showF (LogSpace.logMeanExp v0), emptyOr v0 fun _ => onScalar impl "logMeanExp_spec" fun g =>
       if !(noNaN v0) then [] else
       let M := fmax v0
-      if M.isInf then [("lse_inf", g == M)] else
+      if M.isInf then [("log_inf_max", g == M)] else
       let n := Float.ofNat v0.length
       let slack := 1e-12 * (1.0 + M.abs)
-      [("lse_finite", finite g),
-       ("lse_bounds", M - Float.log n - slack ≤ g && g ≤ M + slack),
+      [("explored_lse_finite", finite g),
+       ("lme_shift_bounds", M - Float.log n - slack ≤ g && g ≤ M + slack),
        ("logMeanExp_spec", !(v0.all (fun x => x.abs ≤ 700.0)) || fclose g (Float.log (fsum (v0.map Float.exp) / n)))])
   | "sumexp" =>
     (s, showRes showF (LogSpace.sumExp v0), emptyOr v0 fun _ => onScalar impl "sumExp_spec" fun g =>
@@ -1028,24 +1028,37 @@ def step (s : St) (op : List String) (impl : Option (List String)) : St × Strin
       let M := fmax v0
       if M.isInf then [("sumExp_spec", g == (if M < 0 then 0 else M))] else
       let n := Float.ofNat v0.length
-      [("sumExp_spec", !(M ≤ 700.0) || fclose g (fsum (v0.map Float.exp)) 1e-9 &&
-          Float.exp M * (1.0 - 1e-12) ≤ g && g ≤ n * Float.exp M * (1.0 + 1e-12))])
+      [("sumExp_spec", !(M ≤ 700.0) || fclose g (fsum (v0.map Float.exp)) 1e-9),
+       ("sumExp_shift_bounds", !(M ≤ 700.0) || (Float.exp M * (1.0 - 1e-12) ≤ g && g ≤ n * Float.exp M * (1.0 + 1e-12)))])
   | "lsew" | "sumexpw" =>
     let isLog := name == "lsew"
     (s, showRes showF (if isLog then LogSpace.logSumExpW v0 v1 else LogSpace.sumExpW v0 v1),
       dimOr v0 v1 fun _ => emptyOr v0 fun _ =>
         if !(noNaN v0) || !(noNaN v1) then "ok" else
         let M := fmax v0
-        if M.isInf && !(!isLog && v0.length == 1) then expectErr impl "badnumber_raises" .badnumber
+        if M.isInf && !(!isLog && v0.length == 1) then expectErr impl "log_inf_max" .badnumber
         else onScalar impl "lsew_spec" fun g =>
+          let terms := (List.zip v0 v1).map (fun p => p.2 * Float.exp p.1)
+          let naive := fsum terms
+          let mass := fsum (terms.map Float.abs)
           if v0.all (fun x => x.abs ≤ 700.0) && v1.all (fun w => finite w && w ≥ 0.0) then
-            let naive := fsum ((List.zip v0 v1).map (fun p => p.2 * Float.exp p.1))
             -- floating-point only (recorded finding): when every maximal entry has weight 0 the shift
             -- by the maximum can underflow all the terms that carry weight
             let zeroAtMax := (List.zip v0 v1).all (fun p => !(p.1 == M) || p.2 == 0.0)
             if isLog then [(if zeroAtMax then "lsew_zero_weight_at_max" else "lsew_spec",
-                            naive == 0.0 || fclose g (Float.log naive))]
+                            naive == 0.0 || fclose g (Float.log naive)),
+                           -- lsew_bounds: at most max + ln Σw
+                           ("lsew_bounds", zeroAtMax || naive == 0.0 ||
+                              g ≤ M + Float.log (fsum v1) + 1e-9 * (1.0 + M.abs))]
             else [("sumExpW_spec", fclose g naive)]
+          else if v0.all (fun x => x.abs ≤ 700.0 && M - x ≤ 600.0) && v1.all finite then
+            -- weights of either sign (lsew_sign_outcome): the logarithm of a positive weighted sum,
+            -- NaN for a negative one; judged when the sign is not rounding noise
+            if isLog then
+              (if naive > 1e-9 * mass then [("lsew_spec", fclose g (Float.log naive))]
+               else if naive < -(1e-9 * mass) then [("lsew_sign_outcome", g.isNaN)]
+               else [])
+            else [("sumExpW_spec", (g - naive).abs ≤ 1e-9 * mass)]
           else [])
   | "lognorm" =>
     (s, showRes showV (LogSpace.logNorm v0), emptyOr v0 fun _ => onVec impl "logNorm_spec" fun g =>
